@@ -582,6 +582,20 @@ def runCase (e : SExp) : Array String :=
         let o := if want.contains "xref" then emitXref H o else o
         (o, some H)
     let o := queries.foldl (fun o q => runQuery T nm inp H? q o) o
+    -- what the HISTORIES say about the number of gained genes of every queried vertical comparison whose descendant is an
+    -- ancestral node: lineages at d of the families that start strictly below a (theorem C06_gained_count_is_the_history)
+    let o := if hs.isEmpty || H?.isNone then o else queries.foldl (fun (o : OutBuf) (q : SExp) =>
+      match q with
+      | SExp.list [SExp.atom "v", x, y] =>
+        let tx := decTaxon x
+        let ty := decTaxon y
+        let ta := if tx.length ≤ ty.length then tx else ty
+        let td := if tx.length ≤ ty.length then ty else tx
+        if T.isInternalAt td && ta.isSuffixOf td && ta != td then
+          o.put "hgain" (taxS ta ++ ">" ++ taxS td ++ "=" ++
+            toString ((hs.map fun (f : Taxon × SL) => if f.1.isSuffixOf ta then 0 else lineagesAt td f.1 f.2).sum))
+        else o
+      | _ => o) o
     o.lines.push (cid ++ "\tend\t")
   | _ => #["?\tbadcase\t"]
 
